@@ -36,7 +36,9 @@ func C17(c *Ctx) {
 	r.Rule("R17.2c", "at every checkPermission guard site of an entry the checked identity is CurrentCaller(); PermissionSpecific lists consist only of registered contract address constants.")
 	r.Rule("R17.4", "promoted plumbing (boltvm.Stub methods, bitxhub-core manager methods) must not be dispatchable: a dispatcher-level filter must dominate reflect.Value.Call in InvokeBVM, and the result type must be validated before the call.")
 	r.Rule("R17.5", "audit independence: the branch taken only when EnableAudit() is true contains no ledger write, balance change, cross-invoke with effects or caller guard (only audit event posts).")
-	r.NotDecided = append(r.NotDecided, "correctness of role data and of the cryptographic sender identity; value-level effects of guarded entries")
+	r.NotDecided = append(r.NotDecided, "correctness of role data beyond the index/record key agreement of R17.6; the cryptographic sender identity; value-level effects of guarded entries")
+
+	c.c17IndexAgreement()
 
 	m := c.Contracts()
 	bvm := m.bvm
